@@ -1,0 +1,11 @@
+//go:build verif
+
+// Contracts for govc (contract-based deductive verification, /verif). Comment-only file:
+// it is compiled only under the build tag "verif" and contains no code.
+
+package bfe_bufio
+
+//@ func NewWriterSize
+//@   trusted constructor; body not verified yet
+//@   modifies nothing
+//@   ensures result0 != nil
